@@ -1,0 +1,12 @@
+//go:build !verif
+// +build !verif
+
+// Package verifhook holds the verification hooks of rcproxy. Without the "verif" build tag (the shipped
+// configuration) every hook is an empty function that the compiler inlines away.
+package verifhook
+
+// Yield marks a point where the verification harness may park the calling goroutine.
+func Yield(string) {}
+
+// Event reports an event to the verification harness.
+func Event(string, string) {}
